@@ -85,7 +85,7 @@ def replay_behaviour(arg) -> dict:
     path, opts = arg
     states = _parse_states(path) if isinstance(path, str) else path
     res = {"trace": os.path.basename(path) if isinstance(path, str) else "graph-path", "steps": 0, "commands": 0,
-           "issues": [], "actions": [a for a, _ in states]}
+           "issues": [], "actions": [st.get("last", a) for a, st in states]}
     d = bi.Dir(opts.get("names"))
     try:
         _run(d, states, res, opts)
